@@ -333,7 +333,11 @@ class Sched:
                 name = tn
             if not self.started:
                 self.started = True
-                self.log.append(['CStart'])
+                self.log.append(['CStart'])          # the producer thread
+            elif tn == 'work':
+                self.log.append(['CFork', self.wcount])
+            elif tn == 'fetcher':
+                self.log.append(['CStartF'])
             h.actor = self.spawn(name, h.kind, h.target, h.args)
             if h.kind == 'process':
                 # fork: the child gets a copy of the parent's handles as they are NOW
@@ -490,9 +494,9 @@ class Diverged(Exception):
     pass
 
 
-_ACTOR_OF = {'PPut': 'producer', 'PMarker': 'producer', 'FGet': 'fetcher', 'FFwd': 'fetcher', 'FEnd': 'fetcher',
+_ACTOR_OF = {'CFork': 'collector', 'CStartF': 'collector', 'PPut': 'producer', 'PMarker': 'producer', 'FGet': 'fetcher', 'FFwd': 'fetcher', 'FEnd': 'fetcher',
              'CGet': 'collector', 'CJoinProd': 'collector', 'CJoinW': 'collector', 'CJoinF': 'collector'}
-_OP_OF = {'PPut': 'put', 'PMarker': 'put', 'WGet': 'get', 'WPut': 'put', 'WExit': 'put', 'FGet': 'get', 'FFwd': 'put', 'FEnd': 'put',
+_OP_OF = {'CFork': 'start', 'CStartF': 'start', 'PPut': 'put', 'PMarker': 'put', 'WGet': 'get', 'WPut': 'put', 'WExit': 'put', 'FGet': 'get', 'FFwd': 'put', 'FEnd': 'put',
           'CGet': 'get', 'CJoinProd': 'join', 'CJoinW': 'join', 'CJoinF': 'join'}
 _INTERNAL = ('CPeekYield', 'CPeekEnd', 'CPeekFail', 'CStart')
 
@@ -542,9 +546,10 @@ def run_script(item):
     def chooser(enabled, s):
         if div:
             return rnd.choice(enabled)
-        # starting the actors is part of CStart; an actor's first step only brings it to its first queue operation
+        # starting the producer thread is CStart; an actor's first step only brings it to its first queue operation; the forks of
+        # the workers and the start of the fetcher are steps of the specification (CFork, CStartF)
         for e in enabled:
-            if e[0] == 'act' and s.actors[e[1]].pending[0] in ('begin', 'start'):
+            if e[0] == 'act' and (s.actors[e[1]].pending[0] == 'begin' or (s.actors[e[1]].pending[0] == 'start' and not s.started)):
                 return e
         while pos[0] < len(script) and script[pos[0]]['a'] in _INTERNAL:
             pos[0] += 1
@@ -630,8 +635,8 @@ def run_script(item):
         if pos[0] < len(script):
             diverge('the implementation finished although the specification still has steps (%s ...)' % script[pos[0]]['a'])
         else:
-            want = [[e['a']] + ([e['w']] if e['a'] in ('WGet', 'WPut', 'WExit', 'FeedOut', 'CJoinW') else []) for e in script]
-            got = [[e[0]] + ([e[1]] if e[0] in ('WGet', 'WPut', 'WExit', 'FeedOut', 'CJoinW') else []) for e in s.log]
+            want = [[e['a']] + ([e['w']] if e['a'] in ('WGet', 'WPut', 'WExit', 'FeedOut', 'CJoinW', 'CFork') else []) for e in script]
+            got = [[e[0]] + ([e[1]] if e[0] in ('WGet', 'WPut', 'WExit', 'FeedOut', 'CJoinW', 'CFork') else []) for e in s.log]
             if want != got:
                 k = next((i for i, (x, y) in enumerate(zip(want, got)) if x != y), min(len(want), len(got)))
                 diverge('the recorded operations differ from the scripted ones at %d' % k, expected=want[k:k + 3], actual=got[k:k + 3])
